@@ -17,10 +17,24 @@ ALLOWED_AXIOMS = {"propext", "Classical.choice", "Quot.sound"}
 ENV = dict(os.environ, CARGO_NET_OFFLINE="true")
 
 
+TIMED_OUT = 124
+
+
 def sh(cmd, cwd=None, env=None, timeout=None, inp=None):
-    p = subprocess.run(cmd, cwd=cwd, env=env or ENV, timeout=timeout, input=inp,
-                       stdout=subprocess.PIPE, stderr=subprocess.STDOUT, text=True)
+    """Run a command; a command that does not finish within `timeout` seconds is killed and reported with
+    exit code TIMED_OUT (never an exception: a hang of the implementation is a finding, not a crash of the check)."""
+    try:
+        p = subprocess.run(cmd, cwd=cwd, env=env or ENV, timeout=timeout, input=inp,
+                           stdout=subprocess.PIPE, stderr=subprocess.STDOUT, text=True)
+    except subprocess.TimeoutExpired as e:
+        out = e.stdout if isinstance(e.stdout, str) else (e.stdout or b"").decode("utf-8", "replace")
+        return TIMED_OUT, out + "\n[did not terminate within %d s: killed]\n" % int(timeout)
     return p.returncode, p.stdout
+
+
+def batch_timeout(tier):
+    """Time allowed for one generated batch on the real implementation (a quick batch normally takes seconds)."""
+    return 7200 if tier == "thorough" else int(os.environ.get("HBV_BATCH_TIMEOUT", "600"))
 
 
 class Violation(Exception):
@@ -291,11 +305,12 @@ def universe_of(scn):
 def correspond(pid, tier, backend, gen_args, workdir, stats):
     """One generated batch: implementation vs model. Raises Violation."""
     prefix = os.path.join(workdir, "%s-%s" % (backend, "-".join(str(a) for a in gen_args)))
-    rc, out = sh([hbv(backend)] + [str(a) for a in gen_args] + [prefix], timeout=7200)
+    rc, out = sh([hbv(backend)] + [str(a) for a in gen_args] + [prefix], timeout=batch_timeout(tier))
     if rc != 0:
-        # the implementation crashed/aborted: re-run with the crash journal to get the scenario that did it
+        # the implementation crashed/aborted/hung: re-run with the crash journal to get the scenario that did it
         jpath = prefix + ".journal"
-        rc2, out2 = sh([hbv(backend)] + [str(a) for a in gen_args] + [prefix + "-j"], env=dict(ENV, HBV_JOURNAL=jpath), timeout=7200)
+        rc2, out2 = sh([hbv(backend)] + [str(a) for a in gen_args] + [prefix + "-j"], env=dict(ENV, HBV_JOURNAL=jpath),
+                       timeout=(300 if rc == TIMED_OUT and tier != "thorough" else batch_timeout(tier)))
         replay = ""
         if os.path.exists(jpath):
             lines = open(jpath).read().split("\n")
@@ -307,8 +322,11 @@ def correspond(pid, tier, backend, gen_args, workdir, stats):
                     body = [body[0], body[-1]]
                 replay = "\n".join(body) + "\nend\n"
         tail = (out2 if rc2 != 0 else out)[-1500:]
-        raise Violation("the implementation crashed or aborted (exit %d) while executing a generated history (%s %s)" % (rc, backend, gen_args),
-                        "# the last operation of this scenario kills the process (assertion / abort / signal)\n# " +
+        raise Violation(("the implementation did not terminate (killed after the time limit) while executing a generated history (%s %s)" % (backend, gen_args))
+                        if rc == TIMED_OUT else
+                        "the implementation crashed or aborted (exit %d) while executing a generated history (%s %s)" % (rc, backend, gen_args),
+                        ("# the last operation of this scenario does not terminate\n# " if rc == TIMED_OUT else
+                         "# the last operation of this scenario kills the process (assertion / abort / signal)\n# ") +
                         tail.replace("\n", "\n# ") + "\n" + (replay or "# (no journal)\n"), bool(replay))
     ops, real, model = prefix + ".ops", prefix + ".real", prefix + ".model"
     run_driver(ops, model)
@@ -367,7 +385,7 @@ def correspond(pid, tier, backend, gen_args, workdir, stats):
         for j in range(1, 13):
             alt = [gen_args[0], gen_args[1], (int(gen_args[2]) * 31 + j * 7919) % 2000000011, gen_args[3]] + list(gen_args[4:])
             pfx = os.path.join(workdir, "%s-search-%d" % (backend, j))
-            rc_s, _ = sh([hbv(backend)] + [str(a) for a in alt] + [pfx], timeout=3600)
+            rc_s, _ = sh([hbv(backend)] + [str(a) for a in alt] + [pfx], timeout=batch_timeout(tier))
             if rc_s != 0 or not os.path.exists(pfx + ".real"):
                 continue
             hit = first_oracle_hit(pfx + ".ops", pfx + ".real")
